@@ -175,3 +175,54 @@ func VH_C16_reader_paths() {
 	vAssert("length-without-decoding", (&Origin{append([]byte{}, gb.Origin.Buffer...), gb.Origin.Parsed}).Len() == n)
 	vObserve("n", n)
 }
+
+//verif:harness prop=C16 quick=3 thorough=6 merge=concrete
+//verif:bounds the ORIGIN field reader on blocks that do NOT have the declared length, in the same three spellings (LF fast path; CRLF and trailing blanks slow path): block of 5 | 60 | 65 (thorough also 10 | 59 | 120) symbolic residues read with a declared length one less or one more, or followed by one surplus sequence line: rejected in every spelling (the two paths accept the same blocks)
+func VH_C16_reader_paths_malformed() {
+	n := []int{5, 60, 65, 10, 59, 120}[vShard(3+3*vTier())]
+	p := vBytesIn("p", n, 33, 126)
+	blk := NewOrigin(p).Buffer
+	defect := vChoice("defect", 3)
+	declared := n
+	switch defect {
+	case 0:
+		declared = n - 1
+	case 1:
+		declared = n + 1
+	default:
+		// one more line in the layout of the block: index, blank, residues
+		extra := NewOrigin(append(append([]byte{}, p...), vBytesIn("x", 3, 33, 126)...)).Buffer
+		if n%60 == 0 {
+			blk = extra // the surplus residues start a new line
+		} else {
+			blk = append(append([]byte{}, blk...), []byte("       999 abc\n")...)
+		}
+	}
+	spelling := vChoice("spelling", 3)
+	var text []byte
+	text = append(text, []byte("ORIGIN      \n")...)
+	for _, c := range blk {
+		if c == '\n' {
+			switch spelling {
+			case 1:
+				text = append(text, '\r')
+			case 2:
+				text = append(text, ' ')
+			}
+		}
+		text = append(text, c)
+	}
+	text = append(text, []byte("//\n")...)
+	gb := &GenBank{Origin: NewOrigin(nil)}
+	st := pars.FromBytes(text)
+	var res pars.Result
+	var err error
+	pn := vPanics(func() { err = makeGenbankOriginParser(declared)(gb, 12)(st, &res) })
+	vAssert("no-panic", !pn)
+	if pn {
+		return
+	}
+	vCover("read")
+	vAssert("inconsistent-block-rejected-on-both-paths", err != nil)
+	vObserve("n", n)
+}
